@@ -19,11 +19,11 @@ KINDS = {
     "data": {"reads": ["t", "rv", "ivar", "tref", "phase", "trend", "merge", "series", "plot", "plotrel"], "muts": [],
              "derivs": ["copy", "slice", "mask", "pickle", "rebuild"]},
     "prior": {"reads": ["s00", "s01", "s10", "s11", "shape", "touch"], "muts": [], "derivs": []},
-    "sampler": {"reads": ["mA", "mAf", "mB", "mBm"], "muts": [], "derivs": [], "draws": ["rA", "rAm", "rB", "iA"]},
+    "sampler": {"reads": ["mA", "mAf", "mB", "mBm", "bad"], "muts": [], "derivs": [], "draws": ["rA", "rAm", "rB", "iA"]},
 }
 # mirror of History.Owner, used ONLY to choose which histories a property's check replays (the verdict's owner is the monitor's)
 OWNER = {"samples": {"map": "C19", "gapA": "C19", "gapB": "C19", "coverA": "C19", "spanA": "C19", "unimodal": "C19", "unmarg": "C04"},
-         "data": {}, "prior": {"shape": "C18", "touch": "C18"}, "sampler": {"mA": "C05", "mAf": "C05", "mB": "C05", "mBm": "C05"}}
+         "data": {}, "prior": {"shape": "C18", "touch": "C18"}, "sampler": {"mA": "C05", "mAf": "C05", "mB": "C05", "mBm": "C05", "bad": "C18"}}
 DEFAULT_OWNER = {"samples": "C17", "data": "C15", "prior": "C09", "sampler": "C10"}
 T0 = 55000.0
 
@@ -392,6 +392,8 @@ class SamplerKind:
             return obj, _guard(lambda: np.asarray(obj.marginal_ln_likelihood(inp["B"], lib)))
         if op == "mBm":
             return obj, _guard(lambda: np.asarray(obj.marginal_ln_likelihood(inp["B"], lib, in_memory=True)))
+        if op == "bad":
+            return obj, _guard(lambda: np.asarray(obj.marginal_ln_likelihood([inp["A"], inp["B"]], lib)))
         if op == "rA":
             return obj, _guard(lambda: table(obj.rejection_sample(inp["A"], lib, return_logprobs=True)))
         if op == "rAm":
